@@ -7,6 +7,15 @@ HERE = os.path.dirname(os.path.dirname(os.path.abspath(__file__)))
 
 # id -> (built?, technique, level text, level note, design ref)
 CHECKS = {
+ "C02": (True, "exhaustive input enumeration (all byte strings <= 2/3/4 bytes, hostile heads, all one-point deviations of valid encodings) x state closure over Decoder positions, with unwind / allocation / work / drop monitors",
+         "Every decoding entry point (~210: typed decode of every table type, accessors, iterators driven to completion and abandoned, skip, tokens, probe, Size, display, drop-tracking element types) is run from every position of {0..=len+1, usize::MAX} on every byte string up to the bound, on ~6000 hostile heads and on every single-byte substitution / truncation / argument replacement of valid encodings. A call must return, stay in bounds, allocate at most a type constant plus a constant per input byte, perform at most 8*len+64 input accesses (hook H2) and drop decoded values exactly once.",
+         "trusted: counting allocator, H2 counter, watchdog; inputs longer than the bound are reached only as deviations of valid encodings (<= 40 bytes)", "5/C02"),
+ "C04": (True, "exhaustive tree enumeration x all head-width assignments x ~150 decoding operations, judged by a three-valued reference relation",
+         "All well-formed item trees up to the node bound in every admissible head-width assignment (plus single deviations for the next size) are decoded through every typed accessor, iterator and ~125 target types; an independent relation (must-ok / must-err / may) derived from the RFC data model decides each result, including exact end position and borrowed-slice provenance; type-directed re-framings (<= 2 deviations) of every small-domain value and every strict prefix are included.",
+         "trusted: refmodel::shape::decode_ref (three-valued so that API-documented restrictions are never demanded), refmodel parser/encoder", "5/C04"),
+ "C06": (True, "exhaustive tree enumeration x suffixes x prefixes + periodic deep-nesting families, against reference item boundaries and a decoder built from the public accessors",
+         "All item trees up to 6 nodes over a structural alphabet (definite/indefinite arrays and maps, chunked strings, tags) x 6 suffixes, all width assignments for <= 3 nodes, every strict prefix, and all 155 nesting patterns of period <= 3 at depth 10^4: skip() must end exactly at the item boundary, agree with full decoding, and fail on every strict prefix.",
+         "trusted: refmodel encoder (item length by construction); no-alloc build covered by the C20 probe builds", "5/C06"),
  "C01": (True, "exhaustive value-space enumeration (all values of small types, boundary lattice, product domains) through the real encoder and decoder",
          "Every value of the small exhaustive domain of each of ~120 concrete instantiations of the built-in Encode/Decode impls is encoded and decoded back (alone and followed by 00/ff) and compared through an independent mapping to the data model; scalars are swept exhaustively (16-bit types and char always, all 2^32 u32/i32/f32 in the thorough tier).",
          "trusted: ToModel mapping in harness/checks/src/types.rs, refmodel::shape::canon; 64-bit scalars are covered on the 2^k +- 3 lattice, not exhaustively", "5/C01"),
